@@ -28,6 +28,12 @@ TRUSTED_BASE = [
     "harness/extract_srctime.py (source translator: Python AST of the _Duration / _Timestamp methods -> lean/BpProofs/Gen/SrcTime.lean, re-run on every check) and lean/BpProofs/PyPreludeTime.lean (datetime / timedelta as microsecond counts, the float intrinsics; validated by harness/tests/check_srctime.py)",
     "harness/extract_srcimp.py (source translator: Python AST of the reference_* functions and the dispatch of get_type_reference of compile/importing.py -> lean/BpProofs/Gen/SrcImporting.lean, re-run on every check) and lean/BpProofs/PyPreludeStr.lean (str / list slicing, indexing, join, split, os.path.commonprefix, set.add as an ordered list)",
     "harness/extract_srcdump.py (source translator: Python AST of the body of the field loop of Message.dump / Message.__len__ -> lean/BpProofs/Gen/SrcDump.lean, re-run on every check) and lean/BpProofs/PyPreludeDyn.lean (what getattr / isinstance / == default / the FieldMetadata attributes mean on the model's Val / FieldD; _preprocess_single / _serialize_single / _len_single / bytes(message) are intrinsics standing for the model functions)",
+    "harness/extract_srcload.py (Message.load: the body of the record loop -> Gen/SrcLoad.lean) and lean/BpProofs/PyPreludeLoad.lean (records, slot aliasing of `current`, setattr / dict insert / list extend on the model state, _postprocess_single as an intrinsic)",
+    "harness/extract_srcobj.py (__setattr__, __getattribute__, which_one_of, _include_default_value_for_oneof, __bool__, serialized_on_wire, is_set, __eq__, __copy_state_to -> Gen/SrcObj*.lean) and lean/BpProofs/PyPreludeObj.lean (raw slot access, _group_current, group tables; Python != as an oracle parameter)",
+    "harness/extract_srcjson.py (Message.to_dict: the body of the field loop, _dump_float -> Gen/SrcJson.lean) and lean/BpProofs/PyPreludeJson.lean (ordered dict writes, leaf codecs str / base64 / isoformat as the model's abstract leaves, type-hint lookups)",
+    "harness/extract_srcfromdict.py (_from_dict_init key loop body and both forms of from_dict -> Gen/SrcFromDict.lean) and lean/BpProofs/PyPreludeFromDict.lean (leaf codecs, class lookups, keyword-argument dict with insert-or-replace)",
+    "harness/extract_srcenum.py (enum.py: member loop of EnumType.__new__, lookups, try_value, from_string, mutation refusals, copy / pickle hooks -> Gen/SrcEnum.lean) and lean/BpProofs/PyPreludeEnum.lean (dicts as association lists, member allocation with a fresh object identity; TypeError for unhashable arguments outside the model)",
+    "harness/extract_srctyping.py (plugin/typing_compiler.py: the seven methods of the three compilers -> Gen/SrcTyping.lean) and lean/BpProofs/PyPreludeTyping.lean",
     "that each Lean statement in lean/BpProofs/Props says what the English property says",
 ]
 
